@@ -10,7 +10,7 @@ for l in reversed(out):
     if subj.startswith('fix:'):
         continue
     files = subprocess.check_output(['git', '-C', '/repo', 'show', '--name-only', '--format=', h], text=True).split()
-    assert files and all(f.endswith('contracts_verif.go') for f in files), (h, subj, files)
+    assert files and all(f.endswith('_verif.go') for f in files), (h, subj, files)
     hooks.append(h)
 t['hook_commits'] = hooks
 json.dump(t, open('/verif/manifest_table.json', 'w'), indent=1)
